@@ -325,15 +325,34 @@ def check_signal_table(ctx):
                     flag_setters.add(f.name)
     handled = {s for s, (h, e) in installed.items() if h and (h in flag_setters or h.split('(')[0] in flag_setters)}
     pending = consts(hpi, 'sigismember', 1)
+    # ... or a loop over a constant table of signal numbers: `for (int s : kSignals) if (sigismember(&pending, s)) ...`
+    table_tests = {}
+    for e_ in hpi.calls('sigismember'):
+        a1 = strip((e_.get('args') or [None, None])[1])
+        if const_value(a1) is None and isinstance(a1, dict) and a1.get('k') == 'var':
+            vals_ = _table_values_of_loop_var(prog, hpi, a1['n'])
+            if vals_:
+                table_tests[a1['n']] = (e_, vals_)
+                for v_ in vals_:
+                    pending.setdefault(v_, e_)
     restored = {s for s in consts(dtor, 'sigaction', 0)}
+    # which terminating signals of a child does ParseExitStatus report as "interrupted"?  Decided by evaluating the function
+    # for every wait status "killed by signal s" (status == s: no exit code, no core flag) - whatever form the test has
+    import charset as _cs
     exitsig = {}
-    for bid, b in pes.blocks.items():
-        for i, s in enumerate(b['succ']):
-            for key, pol, atom in pes.edge_facts(bid, i, all=True):
-                a = strip(atom)
-                if pol and isinstance(a, dict) and a.get('k') == 'bin' and a['op'] == '==' and isinstance(const_value(a['r']), int) \
-                        and const_value(a['r']) != 0 and '& 127' in dstr(a['l']) and s is not None:
-                    exitsig[const_value(a['r'])] = (bid, i, s)
+    intr = prog.enum_value('ExitInterrupted') if hasattr(prog, 'enum_value') else None
+    if intr is None:
+        intr = 130
+    pname = pes.params[0]['n'] if pes.params else 'status'
+    undecided = []
+    for s_ in range(1, 65):
+        rv = _cs.returned_for_value(pes, pname, s_)
+        if rv == {intr}:
+            exitsig[s_] = True
+        elif intr in rv or None in rv:
+            undecided.append((s_, sorted(map(str, rv))))
+    if undecided and not exitsig:
+        raise AnalysisBroken('C07.S1: ParseExitStatus could not be evaluated for signal statuses: %s' % undecided[:3])
     tables = {'blocked (sigaddset)': set(blocked) - {SIGCHLD_NO}, 'handler sets the flag (sigaction)': handled,
               'pending check (sigismember)': set(pending), 'restored (sigaction in the destructor)': restored - {SIGCHLD_NO},
               'child status -> interrupted': set(exitsig)}
@@ -356,6 +375,13 @@ def check_signal_table(ctx):
     for s, e in sorted(pending.items()):
         # (a signal may be tested more than once: one of the tests records it, none records another one)
         good = bad = 0
+        for vn_, (t, vals_) in table_tests.items():
+            # the table form: the test's true side stores the loop variable itself
+            ts = true_succ(hpi, t['_b'])
+            if ts is not None and s in vals_:
+                st = [x for x in hpi.blocks[ts]['ev'] if x['k'] == 'asg' and is_field_name(x['l'], 'SubprocessSet::interrupted_')]
+                good += sum(1 for x in st if is_var(vn_)(x.get('r')))
+                bad += sum(1 for x in st if not is_var(vn_)(x.get('r')))
         for t in hpi.calls('sigismember'):
             if const_value((t.get('args') or [None, None])[1]) != s:
                 continue
@@ -387,10 +413,12 @@ def check_signal_table(ctx):
                   'a %s found pending is consumed (sigwait) so that it cannot kill ninja when the signals are unblocked at the end' %
                   INTERRUPT_SIGNALS.get(s_, s_))
     # in the wait status each of the three leads to ExitInterrupted and nothing else does
-    for s, (bid, i, succ) in sorted(exitsig.items()):
-        r = pes.find_path(None, lambda x: x['k'] == 'ret' and not mentions_enum(x.get('e'), 'ExitInterrupted'), from_succ=succ)
-        ctx.check('C07.S1', r is None, pes.name, 'wait-status:%s:not-interrupted' % INTERRUPT_SIGNALS.get(s, s), pes.loc,
-                  'a child killed by %s is reported as ExitInterrupted' % INTERRUPT_SIGNALS.get(s, s))
+    for s_ in sorted(exitsig):
+        ctx.inst('C07.S1', pes.loc, 'ParseExitStatus evaluated for "killed by signal %s": ExitInterrupted' % INTERRUPT_SIGNALS.get(s_, s_))
+    for s_, why in undecided:
+        if s_ in INTERRUPT_SIGNALS:
+            ctx.violation('C07.S1', pes.name, 'wait-status:%s:not-interrupted' % INTERRUPT_SIGNALS[s_], pes.loc,
+                          'a child killed by %s is not always reported as ExitInterrupted (possible results: %s)' % (INTERRUPT_SIGNALS[s_], why))
     # the handler stores its argument (the signal number) - Clear() forwards interrupted_ to the children
     for hname in sorted({h for s, (h, e) in installed.items() if s in want and h}):
         hf = prog.functions.get(hname) or prog.fn(hname.split('(')[0])
@@ -480,3 +508,23 @@ def check_spawn_attributes(ctx):
               'after the spawn the parent closes its copy of the write end on every path (non-console child)',
               witness=None if r is None else {'blocks': r[0]})
     ctx.floor('C07.P1', 10)
+
+
+def _table_values_of_loop_var(prog, f, var):
+    """Values a range-for / index-loop variable takes when it walks a constant table of integers (a static const array whose
+    evaluated contents the facts carry), or None."""
+    for e in f.events('decl'):
+        if e['n'] != var or e.get('init') is None:
+            continue
+        for x in walk(e['init']):
+            if isinstance(x, dict) and x.get('k') == 'var':
+                # the element comes from `*__begin` of a range over the table, or `table[i]`
+                for y in [x] + [z for d2 in f.events('decl') if d2['n'] == x['n'] and d2.get('init') is not None for z in walk(d2['init'])
+                                if isinstance(z, dict) and z.get('k') == 'var'] + \
+                        [z for d2 in f.events('decl') if d2.get('init') is not None and d2['n'].startswith('__range') for z in walk(d2['init'])
+                         if isinstance(z, dict) and z.get('k') == 'var']:
+                    for gname, g in prog.globals.items():
+                        if isinstance(g, dict) and isinstance(g.get('cvtab'), list) and (gname == y['n'] or gname.endswith('::' + y['n'])) and \
+                                all(isinstance(v, int) for v in g['cvtab']):
+                            return list(g['cvtab'])
+    return None
